@@ -47,6 +47,7 @@ func init() {
 			"plus HISTORIES: every pair over a pool of 20 steps (9 handler behaviours × two operations with different responses, a rejected route, a rejected request) and every triple over a pool of 6, " +
 			"through ONE Validator chain, strict/non-strict × 3 two-operation documents, a rotating part behind the real server, with the other callbacks and with all requests in flight at once (barrier inside the handlers); the same for ValidationHandler; " +
 			"plus optional-interface calls (probe of 11 interfaces, ResponseController.Flush, io.Copy, io.WriteString), bodies of 40 kB (thorough 300 kB), 8 pieces, informational codes in every position, panics after partial output × both transports; " +
+			"plus the defaults (no AuthenticationFunc configured: Validator refuses / ValidationHandler.Load's no-op accepts; DefaultErrorEncoder and ValidationErrorEncoder{DefaultErrorEncoder} with the library's own error text as a wildcard body); " +
 			"plus every option list of length ≤ 3 over {Strict(true), Strict(false), OnErr ×2, OnLog, ValidationOptions ×2} handed to NewValidator; then a seeded random stream of op lists up to length 8 and of histories of 2-4 requests " +
 			"(incl. invalid status codes, header deletions, Content-Type variants). Non-trivial = the model reports a non-default branch (e.g. write before WriteHeader, several WriteHeader calls, " +
 			"no status at all, Flush before the status, strict replacement, custom callbacks, real server transport).",
@@ -516,7 +517,9 @@ func c14Build(c hx.Case) (http.Handler, error) {
 		if err != nil {
 			return nil, err
 		}
-		vh.AuthenticationFunc = c14Auth(c)
+		if !jbool(c14Rq(c), "noauth") {
+			vh.AuthenticationFunc = c14Auth(c) // "noauth": the NoopAuthenticationFunc Load installs stays
+		}
 		kindOf := func(err error) string {
 			var re *routers.RouteError
 			var qe *openapi3filter.RequestError
@@ -547,6 +550,10 @@ func c14Build(c hx.Case) (http.Handler, error) {
 			obs.mu.Unlock()
 		}
 		switch jstr(c, "enc") {
+		case "default":
+			// the DefaultErrorEncoder Load installs stays: text/plain, 500 unless the error carries a status, err.Error()
+		case "veedefault":
+			vh.ErrorEncoder = (&openapi3filter.ValidationErrorEncoder{Encoder: openapi3filter.DefaultErrorEncoder}).Encode
 		case "vee":
 			vh.ErrorEncoder = func(ctx context.Context, orig error, w http.ResponseWriter) {
 				vee := &openapi3filter.ValidationErrorEncoder{Encoder: func(ctx context.Context, err error, w http.ResponseWriter) {
@@ -639,6 +646,9 @@ func c14Build(c hx.Case) (http.Handler, error) {
 	o := openapi3filter.Options{IncludeResponseStatus: jbool(docm, "includeStatus"), ExcludeResponseBody: jbool(docm, "excludeRespBody"),
 		ExcludeRequestBody: jbool(rq, "excludeBody"), ExcludeRequestQueryParams: jbool(rq, "excludeQuery"), MultiError: jbool(rq, "multi"),
 		AuthenticationFunc: c14Auth(c)}
+	if jbool(rq, "noauth") {
+		o.AuthenticationFunc = nil // as when no AuthenticationFunc is configured: every security requirement fails
+	}
 	opts = append(opts, openapi3filter.ValidationOptions(o))
 	if jstr(c, "errfn") != "default" {
 		opts = append(opts, onErr(jstr(c, "errfn")))
@@ -652,7 +662,7 @@ func c14Build(c hx.Case) (http.Handler, error) {
 // which callbacks of the case report to the harness (error callback, log callback)
 func c14Custom(c hx.Case) (bool, bool) {
 	if jstr(c, "mode") == "vh" {
-		return true, false
+		return jstr(c, "enc") != "default" && jstr(c, "enc") != "veedefault", false
 	}
 	if vo, ok := c["vopts"].([]any); ok {
 		e, l := false, false
@@ -978,7 +988,12 @@ func c14Diff(c hx.Case, im, want map[string]any, full bool, checkLogs bool) stri
 	if server && c14Head(c) {
 		want = c14With(want, "body", "") // net/http drops the body bytes of the answer to a HEAD request
 	}
-	if jstr(im, "body") != jstr(want, "body") {
+	if jstr(want, "body") == "*" {
+		// the library's own error text (DefaultErrorEncoder writes err.Error()): any non-empty body
+		if jstr(im, "body") == "" && !(server && c14Head(c)) {
+			return "body: impl wrote none, expected the error text"
+		}
+	} else if jstr(im, "body") != jstr(want, "body") {
 		return fmt.Sprintf("body: impl %q, expected %q", jstr(im, "body"), jstr(want, "body"))
 	}
 	if full {
@@ -1321,6 +1336,39 @@ func genC14(ctx *hx.Ctx, emit func(hx.Case)) {
 			r2 := map[string]any{"excludeBody": o&1 != 0, "excludeQuery": o&2 != 0, "multi": o&4 != 0}
 			if m, ok := c14MergeRq(rq, r2); ok {
 				emit(c14With(base, "rq", m, "noq", o&2 != 0 && o&1 != 0, "strict", o&4 != 0, "ops", someOps[o%len(someOps)], "doc", c14Docs[o%len(c14Docs)]))
+			}
+		}
+	}
+	// defaults: no AuthenticationFunc configured (Validator: every security requirement fails; ValidationHandler.Load
+	// installs the no-op one: every declared scheme passes), and the encoders Load installs / the library ships
+	for _, src := range srcs {
+		if !strings.HasPrefix(src.name, "sec.") {
+			continue
+		}
+		rq, _ := c14MergeRq(src.rq, map[string]any{"noauth": true})
+		for _, decoy := range []bool{false, true} {
+			for _, strict := range []bool{true, false} {
+				emit(c14With(base, "rq", rq, "noq", true, "decoy", decoy, "strict", strict, "ops", someOps[1], "doc", c14Docs[0]))
+			}
+			for _, enc := range []string{"default", "veedefault", "vee"} {
+				emit(c14With(base, "rq", rq, "noq", true, "decoy", decoy, "strict", false, "mode", "vh", "entry", "serve", "enc", enc, "ops", someOps[1]))
+			}
+		}
+	}
+	for _, rq := range rqs {
+		for ei, enc := range []string{"default", "veedefault"} {
+			for _, tr := range []string{"recorder", "server"} {
+				emit(c14With(base, "rq", rq, "noq", true, "strict", false, "mode", "vh", "entry", []string{"serve", "mw"}[ei], "enc", enc,
+					"transport", tr, "ops", someOps[1]))
+			}
+		}
+	}
+	for _, route := range []string{"ok", "nopath", "nomethod"} {
+		for _, rq := range []string{"ok", "missing", "type"} {
+			for _, enc := range []string{"default", "veedefault"} {
+				for _, tr := range []string{"recorder", "server"} {
+					emit(c14With(base, "mode", "vh", "route", route, "req", rq, "enc", enc, "entry", "serve", "transport", tr, "ops", someOps[2], "strict", false))
+				}
 			}
 		}
 	}
